@@ -18,11 +18,11 @@ for d in sorted(glob.glob(os.path.join(ROOT, "seeded", "*"))):
     status = "no longer applies to HEAD" if not m.get("patch_applies") else (", ".join("`" + b + "`" for b in buckets[:2]) if m.get("detected_by_check") else ("not claimed (see note)" if notes.get(m["seed"], "").startswith("**not claimed**") else "MISSED"))
     rows[m["seed"]] = f"| {m['seed']} | {', '.join(files)} ({', '.join(funcs[:2])}) | {m['needs_to_manifest']} | {status} | {notes.get(m['seed'], '')} |"
 out = []
-titles = {"j": "Tenth round (`-j`): nine earlier locations excluded; places to look: uncommon but valid shapes of data (empty tables, empty rows among others, a single row, equal-length rows, a column with one value, maximal names and numbers, type limits), the 'or raises' branches, defaults of optional arguments, code shared by two formats, the order in which results are combined. Agents were also asked to list anything on the unchanged tree that looked like a real bug.", "i": "Ninth round (`-i`): as the eighth, with the eight earlier locations excluded and another list of places to look (write side, less common formats and table types, dtypes and encodings of ordinary inputs, inputs that are views or results of earlier calls, two features combined, state kept between calls).", "h": "Eighth round (`-h`): as the seventh, with the seven earlier locations excluded and a list of general places where slips hide (rarely used options, second entry points, results handed straight on, size-dependent branches, side effects on arguments, interactions of two calls).", "g": "Seventh round (`-g`): agents were given the files, mechanisms and observation points the property is anchored in, and were asked to put their change somewhere none of the earlier six rounds had touched.", "f": "Sixth round (`-f`): agents were asked to aim at the edges of the input domain (empty and single-record inputs, numeric limits, very long fields, first and last rows, the write side).", "e": "Fifth round (`-e`): agents were asked for less central code paths, option combinations, cooperating edits and swapped arguments.", "a": "First round (`-a`): agents saw only the property text.",
+titles = {"k": "Eleventh round (`-k`): ten earlier locations excluded; places to look: two objects derived from one source, state kept at class or module level, results sharing memory with arguments, an operation applied twice, empty and one-element operands, rarely called public helpers, the less common of two paths that should agree.", "j": "Tenth round (`-j`): nine earlier locations excluded; places to look: uncommon but valid shapes of data (empty tables, empty rows among others, a single row, equal-length rows, a column with one value, maximal names and numbers, type limits), the 'or raises' branches, defaults of optional arguments, code shared by two formats, the order in which results are combined. Agents were also asked to list anything on the unchanged tree that looked like a real bug.", "i": "Ninth round (`-i`): as the eighth, with the eight earlier locations excluded and another list of places to look (write side, less common formats and table types, dtypes and encodings of ordinary inputs, inputs that are views or results of earlier calls, two features combined, state kept between calls).", "h": "Eighth round (`-h`): as the seventh, with the seven earlier locations excluded and a list of general places where slips hide (rarely used options, second entry points, results handed straight on, size-dependent branches, side effects on arguments, interactions of two calls).", "g": "Seventh round (`-g`): agents were given the files, mechanisms and observation points the property is anchored in, and were asked to put their change somewhere none of the earlier six rounds had touched.", "f": "Sixth round (`-f`): agents were asked to aim at the edges of the input domain (empty and single-record inputs, numeric limits, very long fields, first and last rows, the write side).", "e": "Fifth round (`-e`): agents were asked for less central code paths, option combinations, cooperating edits and swapped arguments.", "a": "First round (`-a`): agents saw only the property text.",
           "b": "Second round (`-b`): agents were also told where the earlier seeds are and asked for another location and mechanism.",
           "c": "Third round (`-c`): as the second, with the locations of both earlier rounds.",
           "d": "Fourth round (`-d`): agents were asked for a different *kind* of mistake (arithmetic, indexing, dtype, boundary row, option combination) instead of caches and dropped copies."}
-for tag in "abcdefghij":
+for tag in "abcdefghijk":
     mine = [rows[k] for k in sorted(rows) if k.endswith("-" + tag)]
     if not mine:
         continue
